@@ -14,6 +14,7 @@ import VModel.StateRes
 import VProofs.StateResSpecUnique
 import VProofs.StateResSpecExample
 import VProofs.StateResSpecV1b
+import VProofs.StateResSpecExecResolve
 namespace V.C10
 open V V.StateRes V.StateResSpec
 
@@ -59,6 +60,13 @@ theorem controlClosure_iff {cm : List Event} (hm : IdNodup cm) (roots : List Eve
       id ∈ rootIDs ∨ ∃ r ∈ roots, ∃ y, y.eventID = id ∧ ReachPlus (· ∈ cm) r y :=
   V.StateResSpec.controlClosure_iff hm roots rootIDs hfuel h0 id
 
+example : ∀ x ∈ eventMapFromEvents Example.exAuth, x.eventID ∈ [Example.eP].map (·.eventID) → x ∈ [Example.eP] := by
+  intro x hx hid
+  have hx' : x ∈ Example.exSets.flatten ++ Example.exAuth := List.mem_append_right _ (mem_eventMap hx)
+  simp only [List.map_cons, List.map_nil, List.mem_singleton] at hid
+  have := Example.id_inj (Example.mem_all hx') (Or.inr (Or.inr (Or.inl rfl))) hid
+  simp [this]
+
 /-! ## 2. Conflicted / unconflicted -/
 
 /-- v2 / v2.1: an event is unconflicted iff EVERY state set maps its key to it and to nothing else; every other state
@@ -101,6 +109,13 @@ theorem authDifference21_eq_spec {U : Event → Prop} (hU : IDsIdentify U) {m : 
       AuthDifference (· ∈ m) sets y ∨ ConflictedSubgraph (· ∈ m) (· ∈ conflicted) sets y :=
   V.StateResSpec.authDifference21_eq_spec hU hm hmU hSU hcU y
 
+/-- the universe hypotheses of stages 3 and 4 hold for the example input -/
+example : IDsIdentify (fun e => e ∈ Example.exSets.flatten ++ Example.exAuth) ∧
+    (∀ x ∈ eventMapFromEvents Example.exAuth, x ∈ Example.exSets.flatten ++ Example.exAuth) ∧
+    (∀ S ∈ Example.exSets, ∀ x ∈ S, x ∈ Example.exSets.flatten ++ Example.exAuth) :=
+  ⟨Example.exWF.ids, fun _ hx => List.mem_append_right _ (mem_eventMap hx),
+   fun S hS _ hx => List.mem_append_left _ (List.mem_flatten.mpr ⟨S, hS, hx⟩)⟩
+
 /-! ## 4. Control set (R3) and the rest -/
 
 theorem controlSet_eq_spec {U : Event → Prop} {full confMap unconf : List Event} (hU : IDsIdentify U)
@@ -134,6 +149,18 @@ theorem kahn_is_power_order {κ : Type} (lt : κ → κ → Bool) (parents : Eve
     IsPowerOrder (fun a b => lt a.key b.key = true) (fun a x => x.ev.eventID ∈ parents a.ev) nodes0
       (kahnNodes lt parents nodes0) ∧ kahn lt parents nodes0 = (kahnNodes lt parents nodes0).map (·.ev) :=
   ⟨kahnNodes_is_power_order lt parents nodes0 hlt hid hkey hacyc, kahn_eq_map lt parents nodes0⟩
+
+/-- the comparator, identity and key hypotheses hold for the nodes `reverseTopoAuth` builds from the example's auth events -/
+example : StrictTotal powerLt ∧
+    (∀ n ∈ Example.exAuth.map (powerNode [] none), ∀ n' ∈ Example.exAuth.map (powerNode [] none),
+      n.key = n'.key → n = n') := by
+  refine ⟨powerLt_strictTotal, ?_⟩
+  intro n hn n' hn' hk
+  obtain ⟨a, ha, rfl⟩ := List.mem_map.mp hn
+  obtain ⟨b, hb, rfl⟩ := List.mem_map.mp hn'
+  have hid : a.eventID = b.eventID := congrArg PowerKey.id hk
+  have : a = b := Example.id_inj (Example.mem_all (List.mem_append_right _ ha)) (Example.mem_all (List.mem_append_right _ hb)) hid
+  rw [this]
 
 /-- the ordering of power events: by sender power (R4) descending, timestamp, event ID -/
 theorem reverseTopoAuth_is_power_order (m : List Event) (createEv : Option Event) (evs : List Event)
@@ -191,6 +218,8 @@ theorem iterativeAuth_eq_spec (m : List Event) (rejected : List ID) (evs : List 
     StateRel (authAndApply m rejected s evs) (iterAuth m rejected f evs) ∧ KeysNodup (authAndApply m rejected s evs) :=
   authAndApply_rel m rejected evs h hk
 
+example : StateRel [] SMap.empty ∧ KeysNodup [] := ⟨stateRel_nil, keysNodup_nil⟩
+
 /-- **Algorithm 2 (room versions 2–11).** The resolved state is one that `Resolves` per the definition, and the IDs the
     model returns are exactly its events. -/
 theorem resolveV2_eq_spec (sets : List (List Event)) (auth : List Event) (rejected : List ID) (hwf : WF sets auth)
@@ -224,6 +253,34 @@ theorem resolves_unique {algo : Nat} {sets : List (List Event)} {m auth : List E
     {r₁ r₂ : SMap} (h1 : Resolves algo sets m auth rejected r₁) (h2 : Resolves algo sets m auth rejected r₂) : r₁ = r₂ :=
   Resolves.unique hU hc h1 h2
 
+example : IDsIdentify (fun e => e ∈ Example.exSets.flatten ++ eventMapFromEvents Example.exAuth) ∧
+    (∀ a b, Conflicted Example.exSets a → Conflicted Example.exSets b → a.isCreate = true → b.isCreate = true → a = b) := by
+  constructor
+  · intro a b ha hb
+    have key : ∀ x, x ∈ Example.exSets.flatten ++ eventMapFromEvents Example.exAuth →
+        x ∈ Example.exSets.flatten ++ Example.exAuth := by
+      intro x hx
+      rcases List.mem_append.mp hx with h | h
+      · exact List.mem_append_left _ h
+      · exact List.mem_append_right _ (mem_eventMap h)
+    exact Example.exWF.ids a b (key a ha) (key b hb)
+  · intro a b ha hb hca hcb
+    -- both are the (unconflicted) create event's key: but a conflicted event is not unconflicted; here simply:
+    -- the only create event of the example is `eC`, so a = eC = b
+    have inU : ∀ x, Conflicted Example.exSets x → x ∈ Example.exSets.flatten ++ Example.exAuth := by
+      rintro x ⟨⟨S, hS, hx⟩, _⟩
+      exact List.mem_append_left _ (List.mem_flatten.mpr ⟨S, hS, hx⟩)
+    have only : ∀ x, x ∈ Example.exSets.flatten ++ Example.exAuth → x.isCreate = true → x = Example.eC := by
+      intro x hx hc
+      have hk := isCreate_key hc
+      rcases Example.mem_all hx with rfl | rfl | rfl | rfl | rfl
+      · rfl
+      · rw [Example.key_M] at hk; exact absurd hk (by decide)
+      · rw [Example.key_P] at hk; exact absurd hk (by decide)
+      · rw [Example.key_A] at hk; exact absurd hk (by decide)
+      · rw [Example.key_B] at hk; exact absurd hk (by decide)
+    rw [only a (inU a ha) hca, only b (inU b hb) hcb]
+
 /-! ## 7 (version 1, R1) -/
 
 /-- candidates are tried by depth ascending then SHA-1 descending: the model's sort produces such an order, and the
@@ -254,7 +311,29 @@ example : ∀ a ∈ [Example.eA, Example.eB], ∀ b ∈ [Example.eA, Example.eB]
   exact Example.id_inj (by simp at ha; rcases ha with rfl | rfl <;> simp)
     (by simp at hb; rcases hb with rfl | rfl <;> simp) hid
 
+/-- FINDING (reproduced on the Go code, op line in the report): for version 1 the result depends on the ORDER in which the
+    conflicted keys are presented — which `splitConflictedUnconflicted` takes from a Go map iteration — because
+    `resolveAuthBlock` clears the winner's slot (dropping the supplied auth event in it) until its phase is over.  So
+    "the state version 1 defines" is a function of the conflicted LIST (R1, as `V1Resolves` states it), not of the
+    conflicted SET: the full-strength statement `∀ l₁ l₂, l₁.Perm l₂ → resolveV1 sha l₁ auth` and `resolveV1 sha l₂ auth`
+    have the same events` is false: -/
+theorem v1_result_depends_on_block_order :
+    ∃ (sha : ID → Bytes) (l₁ l₂ auth : List Event), l₁.Perm l₂ ∧
+      ¬ (∀ id, id ∈ (resolveV1 sha l₁ auth).map (·.eventID) ↔ id ∈ (resolveV1 sha l₂ auth).map (·.eventID)) := by
+  refine ⟨fun id => id, [Example.vA1, Example.vA2, Example.vB1, Example.vB2], [Example.vB1, Example.vB2, Example.vA1, Example.vA2],
+    Example.vAuth, ?_, ?_⟩
+  · exact (List.perm_append_comm (l₁ := [Example.vA1, Example.vA2]) (l₂ := [Example.vB1, Example.vB2]))
+  · intro h
+    have h1 := congrArg Prod.fst Example.v1_order_dependent
+    have h2 := congrArg Prod.snd Example.v1_order_dependent
+    simp only at h1 h2
+    have := (h b!"$B1:h").mp (by rw [h1]; decide)
+    rw [h2] at this
+    revert this; decide
+
 /-! ## 8 (continued). The entry point returns the defined state -/
+
+example : ∃ row, versionRow? b!"10" = some row ∧ row.stateResAlgorithm = 2 := by decide +kernel
 
 /-- `ResolveConflictsNew` on a registered room version returns the state the version's algorithm defines:
     version 1 — the R2 split, `V1Resolves` for the conflicted keys, plus the unconflicted events;
@@ -282,5 +361,23 @@ theorem entrypoint_eq_spec (sha : ID → Bytes) (ver : Bytes) (sets : List (List
       refine ⟨(resolveV2New 3 sets auth rej).result, result, ?_, ?_, hids⟩
       · simp [h3]
       · rw [h3]; exact hres
+
+/-! ## The executable rendering of the definition (the specification stream of the correspondence check) -/
+
+/-- `VModel/StateResSpecExec.lean` — the definition executed directly (sets by comprehension, reachability by
+    saturation, power order by repeatedly selecting the greatest free event, …), sharing no loop with the model —
+    satisfies the definition … -/
+theorem execSpec_resolves (algo : Nat) (halgo : algo = 2 ∨ algo = 3) (sets : List (List Event)) (auth : List Event)
+    (rejected : List ID) (hwf : WF sets auth) (hr : Ranked (sets.flatten ++ auth)) :
+    ∃ result : SMap, Resolves algo sets (Exec.authMap auth) auth rejected result ∧
+      ∀ id, id ∈ Exec.resolve algo sets auth rejected ↔ ∃ k e, result k = some e ∧ e.eventID = id :=
+  Exec.resolve_resolves algo halgo sets auth rejected hwf hr
+
+/-- … and hence returns exactly the events the model returns. -/
+theorem execSpec_eq_model (algo : Nat) (halgo : algo = 2 ∨ algo = 3) (sets : List (List Event)) (auth : List Event)
+    (rejected : List ID) (hwf : WF sets auth) (hr : Ranked (sets.flatten ++ auth))
+    (hc : ∀ a b, Conflicted sets a → Conflicted sets b → a.isCreate = true → b.isCreate = true → a = b) (id : ID) :
+    id ∈ Exec.resolve algo sets auth rejected ↔ id ∈ (resolveV2New algo sets auth rejected).result :=
+  Exec.resolve_eq_model algo halgo sets auth rejected hwf hr hc id
 
 end V.C10
